@@ -203,6 +203,13 @@ func main() {
 		}
 	}
 
+	// the same for a client that has the sending controller configured (bare literal / NewDevice)
+	for cfg := 1; cfg <= 2; cfg++ {
+		if ch := startListenChild(r, fmt.Sprintf("listen:0/1/%d", cfg), nChildren+cfg); ch != nil {
+			children = append(children, ch)
+		}
+	}
+
 	var distinct int64
 	t0 := time.Now()
 	lap := func(name string, d int64) {
@@ -224,6 +231,8 @@ func main() {
 	lap("api: argument tuples", sweepArgs(r))
 
 	_, evDistinct := eventDatagrams(r.Thorough(), func(int64, []byte) {})
+	_, evReduced := eventDatagramsX(r.Thorough(), true, func(int64, []byte) {})
+	evDistinct += 2 * evReduced // the reduced sweep under two more client configurations
 	var events, errs int64
 	for _, ch := range children {
 		res, _ := ch.wait(r)
@@ -239,7 +248,7 @@ func main() {
 	r.Rule("distinct = distinct (entry point or operation, input) pairs, counted by construction and conservatively (coinciding patterns subtracted): " +
 		"per message struct every length 0..2048 x 7 fill patterns, every protocol id {00,17,19,ff} x function code 0..255 x 3 bodies, every position 2..63 x byte value on 4 bases " +
 		"(valid header + 00 / valid sample / 99 / ff), thorough: every adjacent byte pair x 65536 values on the valid sample; the same families as replies to the 30 single-controller operations " +
-		"(positions 0..63) on the BroadcastTo, SendUDP and SendTCP paths, as GetDevices reply lists and as listener event datagrams; plus the argument tuples of args.go. " +
+		"(positions 0..63) on the BroadcastTo, SendUDP and SendTCP paths, as GetDevices reply lists and as listener event datagrams (client without configured controllers; the position x value sweep over both well-formed samples and the header sweep again with the sending controller configured as a bare Device literal and through NewDevice); plus the argument tuples of args.go. " +
 		"evaluations = library calls executed (each codec input runs through 5 entry points + dispatcher; each argument tuple through 3 paths x {reply, silence}); trivial inputs (rejected on length or header) are included in the families but make up < 10 % of the position/pair sweeps")
 	r.Sample(map[string]any{"entry": "codec.Unmarshal", "message": "GetDoorControlStateResponse", "datagram": hex.EncodeToString(responseSample(0x82)), "reference": "value or error, no panic; value renderable"})
 	r.Sample(map[string]any{"op": "GetDoorControlState", "path": "BroadcastTo", "reply": "17820000 78372a18 02 04 07 00...", "reference": "returned *DoorControlState renders with String()/json.Marshal without panicking"})
